@@ -71,6 +71,51 @@ def run_cg(graph, atoms):
         return {"k": "exc", "exc": "Unserialisable" + exc_class(exc), "msg": str(exc)[:160]}
 
 
+def call(mode, graph, ev):
+    from y0.algorithm.identify import id_star, idc_star
+
+    if mode == "star":
+        return ser_out(lambda: id_star(graph, to_event(ev)))
+    if mode == "cstar":
+        return ser_out(lambda: idc_star(graph, to_event(ev[0]), to_event(ev[1])))
+    return run_cg(graph, ev)
+
+
+def history_pass(mode, item, recs):
+    """The answer is a function of the graph's *value*: one graph object is queried with every event, then completed in
+    place with its last edge (add_directed_edge / add_undirected_edge) and queried again; an object with the same value
+    and the same insertion order that was never queried before the edge was added must give the same answers.  In mode
+    cg the answers of the object with a history are also appended to `recs` (validated by TLC like any other record)."""
+    g = item["g"]
+    edges = [("d", e) for e in g["d"]] + [("b", e) for e in g["b"]]
+    if not edges:
+        return {"events": 0, "mismatch": []}
+    k, e = edges[sum(map(ord, item["gid"])) % len(edges)]
+    pre = {"n": g["n"], "d": [x for x in g["d"] if not (k == "d" and x == e)],
+           "b": [x for x in g["b"] if not (k == "b" and x == e)]}
+
+    def grow(gr):
+        if k == "d":
+            gr.add_directed_edge(var(e[0]), var(e[1]))
+        else:
+            gr.add_undirected_edge(var(e[0]), var(e[1]))
+        return gr
+
+    h = build_graph(pre, 0)
+    for ev in item["evs"]:
+        call(mode, h, ev)          # history: queries on the smaller graph (answers not used)
+    grow(h)
+    f = grow(build_graph(pre, 0))  # same value, same insertion order, no history
+    mismatch = []
+    for ei, ev in enumerate(item["evs"]):
+        oh, of = call(mode, h, ev), call(mode, f, ev)
+        if oh != of:
+            mismatch.append({"ei": ei, "ev": ev, "with_history": oh, "without": of, "edge": [k, e]})
+        if mode == "cg":
+            recs.append({"id": f"{item['gid']}:{ei}:h", "k": "cg", "ev": ev, "out": oh})
+    return {"events": len(item["evs"]), "mismatch": mismatch, "edge": [k, e]}
+
+
 def main():
     from y0.algorithm.identify import id_star, idc_star
 
@@ -90,7 +135,8 @@ def main():
                 recs.append({"id": rid, "k": "cstar", "ev": ev[0], "cond": ev[1], "out": out})
             else:
                 recs.append({"id": rid, "k": "cg", "ev": ev, "out": run_cg(graph, ev)})
-        groups.append({"n": g["n"], "d": g["d"], "b": g["b"], "recs": recs, "gid": item["gid"]})
+        hist = history_pass(mode, item, recs)
+        groups.append({"n": g["n"], "d": g["d"], "b": g["b"], "recs": recs, "gid": item["gid"], "hist": hist})
     json.dump(groups, open(dst, "w"))
 
 
